@@ -1069,7 +1069,8 @@ theorem closure_step {m : Nat → Nat} {s : St} {rs : Ref.St} {env : Nat} (hrel 
     (huser : (fnOf s t).user = false) (htlt : t < s.fns.length) (htclo : (fnOf s t).closing = [some 0])
     (hcode : ∃ b tl isFn cb gs0 gs1 self, (fnOf s t).code = fnCode t c.ps b
       ∧ (compileBegin isFn cb c.body).run gs0 = .ok ((b, tl), gs1) ∧ cb.scopes = 0
-      ∧ FnameOk self cb ∧ FzList self c.body = true ∧ GenOk gs0 gs1 s ∧ KnownOk cb gs0 c.ps) :
+      ∧ FnameOk self cb ∧ (∃ ex, FzList ex self c.body = true ∧ (ex = true → gs0.loopstack = [])) ∧ GenOk gs0 gs1 s
+      ∧ KnownOk cb gs0 c.ps) :
     RelF (mapWith m s.fns.length rs.clos.length) (afterClosure s t) { rs with clos := rs.clos ++ [c] } env
       ∧ GoodFn (mapWith m s.fns.length rs.clos.length) (afterClosure s t) { rs with clos := rs.clos ++ [c] } s.fns.length
       ∧ MExt s m (mapWith m s.fns.length rs.clos.length) ∧ RExt rs { rs with clos := rs.clos ++ [c] }
@@ -1119,7 +1120,7 @@ theorem simF_fn {n : Nat} {self : String} (ps : List String) (body : List Expr)
     { ps := ps, rest := none, body := body, env := env } rfl rfl hnd hps hbody
     (by rw [hTd]; rfl) (by rw [hTd]; rfl) (by rw [hTd]; rfl) (by rw [hTd]; rfl) htl
     (by rw [hTd]; show newClosing isFn gs.live = [some 0]; rw [hgen.live]; exact newClosing_single _)
-    ⟨b, tl, isFn, anonCtx c gs, _, g2, "", by rw [hTd], hb, rfl, anonCtx_funcname c gs, fzList_of_ff _ _ hff, hgenb,
+    ⟨b, tl, isFn, anonCtx c gs, _, g2, "", by rw [hTd], hb, rfl, anonCtx_funcname c gs, ⟨false, fzList_of_ff _ _ hff, fun h => by cases h⟩, hgenb,
       knownOk_anonCtx c gs _ ps⟩
   rw [Ref.eval]
   have a0 : At s pre (.createClosure gs.fns.length) post := hseg.head
@@ -1132,7 +1133,8 @@ theorem simF_fn {n : Nat} {self : String} (ps : List String) (body : List Expr)
 /-- `defn`: the closure is made and bound; the body may hold self tail calls (`FzList`) -/
 theorem simF_defn_core {n : Nat} (name : String) (ps : List String) (body : List Expr)
     (hname : okName name = true) (hne : name ≠ "") (hnd : ps.Nodup) (hps : ∀ p ∈ ps, okParam p = true) (hbody : body ≠ [])
-    (hfz : FzList name body = true) (isFn : Nat → Bool) (c : Ctx) (gs g2 : GS) (b : List Instr) (tl : Bool)
+    {ex : Bool} (hfz : FzList ex name body = true) (hex : ex = true → gs.loopstack = []) (isFn : Nat → Bool) (c : Ctx) (g2 : GS)
+    (b : List Instr) (tl : Bool)
     (hb : (compileBegin isFn (bodyCtx c gs name ps body) body).run (gsAlloc isFn gs name ps) = .ok ((b, tl), g2))
     (hk2 : KeepFns (gsAlloc isFn gs name ps) g2)
     (r : (List Instr × Bool) × GS) (hc : (compile isFn c (.defn name ps none body)).run gs = .ok r)
@@ -1150,7 +1152,7 @@ theorem simF_defn_core {n : Nat} (name : String) (ps : List String) (body : List
     (by rw [hTd]; rfl) (by rw [hTd]; rfl) (by rw [hTd]; rfl) (by rw [hTd]; rfl) htl
     (by rw [hTd]; show newClosing isFn gs.live = [some 0]; rw [hgen.live]; exact newClosing_single _)
     ⟨b, tl, isFn, bodyCtx c gs name ps body, _, g2, name, by rw [hTd], hb, rfl, bodyCtx_funcname c gs name ps body,
-      hfz, hgenb, knownOk_bodyCtx isFn c gs name ps body⟩
+      ⟨ex, hfz, hex⟩, hgenb, knownOk_bodyCtx isFn c gs name ps body⟩
   -- the reference side
   rw [Ref.eval]
   show SimF _ m s rs env
@@ -1217,6 +1219,7 @@ theorem simF_defn {n : Nat} {self : String} (name : String) (ps : List String) (
   obtain ⟨⟨⟨⟨⟨hname, hne⟩, hnd⟩, hps⟩, hbody⟩, hff⟩ := hform
   obtain ⟨b, tl, g2, hb, _, hk2⟩ := compileBegin_total_Ff true name body hbody hff isFn (bodyCtx c gs name ps body)
     (gsAlloc isFn gs name ps) (bodyCtx_funcname c gs name ps body)
-  exact simF_defn_core name ps body hname hne hnd hps hbody (fzList_of_ff _ _ hff) isFn c gs g2 b tl hb hk2.1 r hc hrel hgen hseg
+  exact simF_defn_core name ps body hname hne hnd hps hbody (fzList_of_ff _ _ hff) (fun h => by cases h) isFn c g2 b tl hb hk2.1
+    r hc hrel hgen hseg
 
 end ZygoVerif.Sim
